@@ -693,7 +693,37 @@ def direct(ctx, proved):
     return [s for s in sp if s["kind"] == "template"]
 
 
+def _private_build(ctx):
+    """Work in build/<pid>.<ospid>: another `./check C05` / try_mutant run started meanwhile
+    wipes build/<pid> (Ctx does rmtree) and would break the late Coq steps of a long run.
+    The directory is moved back to build/<pid> at the end."""
+    import os
+    shared = ctx.bdir
+    ctx.bdir = "%s.%d" % (shared, os.getpid())
+    os.makedirs(ctx.bdir, exist_ok=True)
+    return shared
+
+
+def _publish_build(ctx, shared):
+    import shutil
+    private = ctx.bdir
+    try:
+        shutil.rmtree(shared, ignore_errors=True)
+        shutil.move(private, shared)
+    except Exception:
+        shutil.rmtree(private, ignore_errors=True)
+    ctx.bdir = shared
+
+
 def run(ctx):
+    shared = _private_build(ctx)
+    try:
+        _run(ctx)
+    finally:
+        _publish_build(ctx, shared)
+
+
+def _run(ctx):
     srcs = [vlib.read_src(n) for n in ("hydrodynamics.py", "hydrodynamicsTemplateModel.py",
                                        "helpers.py")]
     gen_ok = True
